@@ -1342,7 +1342,7 @@ func init() {
 	fw.Register(&fw.Prop{
 		ID:    "C12",
 		Level: "model_checking",
-		Rule: "explicit-state BFS over the real Dict/Set: successor = replay of the shortest history on a fresh object + one operation; " +
+		Rule: "explicit-state BFS over the real Dict/Set: successor = replay of the shortest history on a fresh object + one operation; configurations A (5 keys, 3 sharing one hash, fixpoint), B (14 interchangeable colliding keys, depth-bounded), C (pre-sized 4-bucket table, fixpoint), D/E (the search starts from 16 / 24 keys in one chain), G (two hash classes that part when the table has four buckets; insert-fresh per class, delete-last, update-first); " +
 			"state key = private table layout (size, every chain slot with key+hash, order list) via the verif hook; " +
 			"after every transition len/membership/lookup/keys/values/items/Iterate/Elements/Entries/for-loop order are compared with an ordered association list; " +
 			"non-trivial = distinct layout states other than the initial one",
